@@ -59,6 +59,8 @@ pub struct Report {
     pub extra: BTreeMap<String, Value>,
     pub machinery: Vec<String>,
     pub known_descriptions: BTreeMap<String, String>,
+    /// evidence of child runs (other back ends): (name, exit code, evidence json)
+    pub children: Vec<(String, i32, Value)>,
 }
 
 impl Report {
@@ -68,7 +70,7 @@ impl Report {
         for k in load_known(property) {
             known_descriptions.insert(k.finding_id.clone(), k.description.clone());
         }
-        Report { property: property.to_string(), tier: tier.to_string(), seed, started: std::time::Instant::now(), sections: vec![], assumptions: vec![], extra: BTreeMap::new(), machinery: vec![], known_descriptions }
+        Report { property: property.to_string(), tier: tier.to_string(), seed, started: std::time::Instant::now(), sections: vec![], assumptions: vec![], extra: BTreeMap::new(), machinery: vec![], known_descriptions, children: vec![] }
     }
 
     pub fn add(&mut self, s: Section) {
@@ -177,6 +179,25 @@ impl Report {
             let desc = self.known_descriptions.get(id).cloned().unwrap_or_default();
             println!("KNOWN-FINDING: property={} {} — {} ({} state(s), e.g. [{}]: {})", self.property, id, desc, n, label, f);
         }
+        // fold in child runs (the same check executed by a separately built binary, e.g. the aws-lc-rs back end)
+        let mut child_violations = 0u64;
+        let mut children_json = Vec::new();
+        for (name, code, ev) in &self.children {
+            let c = &ev["coverage"];
+            states += c["states"].as_u64().unwrap_or(0);
+            transitions += c["transitions"].as_u64().unwrap_or(0);
+            distinct += c["distinct_nontrivial"].as_u64().unwrap_or(0);
+            exhaustive &= c["exhaustive"].as_bool().unwrap_or(false);
+            child_violations += ev["violations"].as_u64().unwrap_or(0);
+            if *code >= 2 || (*code != 0 && ev["violations"].as_u64().unwrap_or(0) == 0) {
+                self.machinery.push(format!("child run {} exited with {}", name, code));
+            }
+            for smp in c["samples"].as_array().cloned().unwrap_or_default().into_iter().take(2) {
+                samples.push(json!({"child": name, "sample": smp}));
+            }
+            children_json.push(json!({"name": name, "exit": code, "states": c["states"], "transitions": c["transitions"], "distinct_nontrivial": c["distinct_nontrivial"], "violations": ev["violations"], "sections": c["sections"], "known_findings_hit": c["known_findings_hit"], "wall_s": ev["wall_s"]}));
+        }
+        self.extra.insert("children".into(), Value::Array(children_json));
         let wall = self.started.elapsed().as_secs_f64();
         let mut coverage = json!({
             "states": states.max(0),
@@ -202,17 +223,22 @@ impl Report {
             "coverage": coverage,
             "assumptions": self.assumptions,
             "wall_s": wall,
-            "violations": viol_by_sig.len(),
+            "violations": viol_by_sig.len() as u64 + child_violations,
             "violations_total_occurrences": violations_total,
             "machinery_errors": self.machinery,
         });
-        let evdir = root.join("evidence");
-        let _ = std::fs::create_dir_all(&evdir);
-        std::fs::write(evdir.join(format!("{}.json", self.property)), serde_json::to_string_pretty(&ev).unwrap()).expect("write evidence");
+        match std::env::var("VERIF_EVIDENCE_OUT") {
+            Ok(p) if !p.is_empty() => std::fs::write(&p, serde_json::to_string(&ev).unwrap()).expect("write child evidence"),
+            _ => {
+                let evdir = root.join("evidence");
+                let _ = std::fs::create_dir_all(&evdir);
+                std::fs::write(evdir.join(format!("{}.json", self.property)), serde_json::to_string_pretty(&ev).unwrap()).expect("write evidence");
+            }
+        }
         eprintln!("[{}] {} tier: states={} transitions={} distinct={} violations={} known={} wall={:.1}s exhaustive={}", self.property, self.tier, states, transitions, distinct, viol_by_sig.len(), known_all.len(), wall, exhaustive);
         // a confirmed, replayable violation is a verdict even if cross-checks also complain
         // (their complaints are usually its consequence); without one, machinery errors decide
-        if !viol_by_sig.is_empty() {
+        if !viol_by_sig.is_empty() || child_violations > 0 {
             for m in self.machinery.iter().take(20) {
                 eprintln!("MACHINERY-WARNING (alongside violations): {}", m);
             }
